@@ -280,6 +280,13 @@ func TestC15Big(t *testing.T) {
 			c.After = rapid.IntRange(0, 1).Draw(t, "after") // 0: the big batch is the last commit of the tail at reopen
 			return c
 		}
+		if rapid.IntRange(0, 4).Draw(t, "spill") == 0 {
+			// the first write to a fresh segment is a batch whose small entries overflow the 64 KiB
+			// commit buffer and whose last entry is refused: what follows must still be readable after a reopen
+			c.Sizes = []int{30000, 30000 + rapid.IntRange(0, 9).Draw(t, "j"), 30000, segment.MaxEntrySize + 1}
+			c.Pre, c.After = 0, rapid.IntRange(1, 2).Draw(t, "after")
+			return c
+		}
 		switch pos {
 		case 0:
 			c.Sizes = []int{segment.MaxEntrySize + d}
